@@ -59,8 +59,11 @@ NSubmit(i, t, obsres) ==
           /\ Log([op |-> "nsubmit", i |-> i, t |-> t, res |-> IF obsres = "other" THEN "other" ELSE "stale"])
 
 (* a transaction message reaches its destination: SubmitTx there, no further forwarding *)
-NDeliverTx(m, obsres) ==
-  /\ m \in tmsgs /\ tmsgs' = tmsgs \ {m}
+(* strict: the message is in flight (generation, model checking).  In trace validation a delivery is executed whether or
+   not the specification has the message (a submission the engine refused for a reason of its own - class "other" - was
+   not forwarded in the specification, yet the driver delivers what the generated schedule says): same semantics. *)
+NDeliverTxX(m, obsres, strict) ==
+  /\ (strict => m \in tmsgs) /\ tmsgs' = tmsgs \ {m}
   /\ UNCHANGED <<blk, n, known, tip, nInsH, nInsB, bmsgs, lost>> /\ Unused
   /\ LET j == m.to  t == m.t IN
      IF obsres # "other" /\ ~OnTip(t, j) /\ t \notin npool[j] /\ Valid(NodeS(j), t, Height(tip[j]))
@@ -68,6 +71,7 @@ NDeliverTx(m, obsres) ==
           /\ Log([op |-> "ndelivertx", to |-> j, from |-> m.from, t |-> t, res |-> "admit"])
      ELSE /\ UNCHANGED npool
           /\ Log([op |-> "ndelivertx", to |-> j, from |-> m.from, t |-> t, res |-> IF obsres = "other" THEN "other" ELSE "stale"])
+NDeliverTx(m, obsres) == NDeliverTxX(m, obsres, TRUE)
 
 (* ---- node i mines: packs its pool in the order seq, confirms, PlayForMiner, announces the block -- *)
 PackOK(i, seq) == /\ Range(seq) \subseteq npool[i] /\ NoDupSeq(seq)
@@ -92,8 +96,8 @@ GreedyPool(j, b) ==
            [s |-> ChainS(b), P |-> {}], GoodOrder(Candidates(j, b))).P
 PoolAfter(j, b, P) ==
   IF P # {"*"} /\ P \subseteq Candidates(j, b) /\ AllApply(ChainS(b), GoodOrder(P), Height(b)) THEN P ELSE GreedyPool(j, b)
-NDeliverBlk(m, P) ==
-  /\ m \in bmsgs /\ bmsgs' = bmsgs \ {m}
+NDeliverBlkX(m, P, strict) ==
+  /\ (strict => m \in bmsgs) /\ m.b \in 1..n /\ bmsgs' = bmsgs \ {m}
   /\ UNCHANGED <<blk, n, tmsgs, lost>> /\ Unused
   /\ LET j == m.to  b == m.b  ht == Height(m.b)
          ev(r) == [op |-> "ndeliverblk", to |-> j, from |-> m.from, b |-> b, res |-> r] IN
@@ -109,10 +113,12 @@ NDeliverBlk(m, P) ==
              ELSE UNCHANGED <<tip, npool>>                       \* a tie: stored as a side block
           /\ Log(ev("ok"))
 
-NDropBlk(m) == /\ m \in bmsgs /\ bmsgs' = bmsgs \ {m} /\ lost' = TRUE
+NDeliverBlk(m, P) == NDeliverBlkX(m, P, TRUE)
+
+NDropBlk(m) == /\ bmsgs' = bmsgs \ {m} /\ lost' = TRUE
                /\ UNCHANGED <<blk, n, tmsgs>> /\ NodeUnch /\ Unused
                /\ Log([op |-> "ndropblk", to |-> m.to, from |-> m.from, b |-> m.b, res |-> "-"])
-NDropTx(m) == /\ m \in tmsgs /\ tmsgs' = tmsgs \ {m}
+NDropTx(m) == /\ tmsgs' = tmsgs \ {m}
               /\ UNCHANGED <<blk, n, bmsgs, lost>> /\ NodeUnch /\ Unused
               /\ Log([op |-> "ndroptx", to |-> m.to, from |-> m.from, t |-> m.t, res |-> "-"])
 NRestart(i) == /\ nInsH' = [nInsH EXCEPT ![i] = 0] /\ nInsB' = [nInsB EXCEPT ![i] = 0]
